@@ -121,6 +121,15 @@ theorem undelegate_keepsMt (e : Env) (s : State) (g : Dec) (del : Addr) (val : V
 
 
 
+theorem redelegate_keepsMt (e : Env) (s : State) (g : Dec) (del : Addr) (src dst : ValAddr) (amt : Int) :
+    keepsMt s (stakeRedelegate e s g del src dst amt) := by
+  unfold keepsMt
+  split
+  · rename_i s' hs
+    exact redelegate_keeps metaPart (fun e s s' g g' v a b h => verifySuper_mtS e s s' g g' v a b h)
+      (fun s s' a b x h => send_mtS s s' a b x h) (fun _ _ => rfl) e s g del src dst amt s' hs
+  · trivial
+
 /-! ### every operation -/
 theorem begin_mt (e : Env) (s s' : State) (h : nodeBeginBlock e s = .ok s') : metaPart s' = metaPart s := by
   unfold nodeBeginBlock at h
@@ -206,6 +215,13 @@ theorem C09_models_change_only_by_model_messages (e : Env) (y : Sys) (op : Op) (
     case undelegate c v a =>
       simp only [step, stepBase, stakeStep]
       have := undelegate_keepsMt e y.st y.global c v a
+      unfold keepsMt at this
+      split
+      · rename_i s' hs; rw [hs] at this; exact this
+      · rfl
+    case redelegate c v w a =>
+      simp only [step, stepBase, stakeStep]
+      have := redelegate_keepsMt e y.st y.global c v w a
       unfold keepsMt at this
       split
       · rename_i s' hs; rw [hs] at this; exact this
